@@ -326,6 +326,12 @@ fn attr_suffix(op: &dyn rv::Operator) -> String {
         }
         "Softmax" => format!("{{axis={},flush={}}}", dbg_field(&d, "axis").unwrap_or_default(), b01(dbg_field(&d, "flush_nans_to_zero"))),
         "AddSoftmax" => format!("{{flush={}}}", b01(dbg_field(&d, "flush_nans_to_zero"))),
+        "GroupedQueryAttentionMatMul" => format!(
+            "{{repeats={},alpha={},trhs={}}}",
+            dbg_field(&d, "repeats").unwrap_or_default(),
+            opt_f32_bits(dbg_field(&d, "alpha")),
+            b01(dbg_field(&d, "transpose_rhs"))
+        ),
         "RepeatInterleave" => format!("{{axis={},repeats={}}}", dbg_field(&d, "axis").unwrap_or_default(), dbg_field(&d, "repeats").unwrap_or_default()),
         n if n.starts_with("TransformInputs(") => {
             // transforms: [TransformIndex { input_index: 0, transform: Permute(PermuteInput { perm: Some([1, 0]) }) }, ..]
